@@ -278,6 +278,31 @@ func c08RunAcl(c *c08AclCase) (clause string, outcome string) {
 	if len(a["udp-first"].Seen) > 1 {
 		return "more than one outbound consulted for one request: " + ref, ref
 	}
+	// a PARTIAL resolver answer (ResolveInfo documents that addresses and an error may come together: the A lookup
+	// timed out, the AAAA lookup answered): a destination the policy rejects with these addresses known is still
+	// rejected when the same addresses arrive with an error next to them, on both paths (seed C08-14). One
+	// direction only - refusing more on an error is the policy's business.
+	if ri := c08Resolves[c.Resolve]; c.Kind == "engine" && ri != nil && ri.Err == nil && (ri.IPv4 != nil || ri.IPv6 != nil) &&
+		a["udp-first"].Err && len(a["udp-first"].Seen) == 0 {
+		for _, udp := range []bool{true, false} {
+			var seen []c08Seen
+			ob, err := c08Engine(c08RuleLists[c.Rules], &seen)
+			if err != nil {
+				return "rule list does not compile: " + err.Error(), ref
+			}
+			pr := c08CloneRI(ri)
+			pr.Err = errors.New("c08: lookup of the other family timed out")
+			ad := &AddrEx{Host: c.Host, Port: c.Port, ResolveInfo: pr}
+			if udp {
+				_, err = ob.UDP(ad)
+			} else {
+				err = ob.CheckUDP(ad)
+			}
+			if err == nil || len(seen) > 0 {
+				return fmt.Sprintf("rejected destination allowed on a partial resolver answer: with addresses %s the policy rejects it, with the same addresses plus a resolver error (udp-path=%v) -> err=%v outbounds=%v", c08RI(ri), udp, err != nil, seen), ref
+			}
+		}
+	}
 	return "", ref
 }
 
